@@ -3,6 +3,10 @@
 import json, subprocess
 GOENV = "GOFLAGS=-mod=mod GOPROXY=off GOSUMDB=off GOTOOLCHAIN=local CGO_ENABLED=1"
 CHECKS = {
+ "C05": dict(engine="E1 fault enumeration", level="fault_enumeration", design="DESIGN.md 4/C05",
+   text="(a) every fault(i) site of every generated program x 12 fault kinds is run against the reference interpreter with the same fault, with interpreter-state snapshots around each protected call; (b) a fault is injected at every instruction boundary of generated 'prologue; pcall(pure body); epilogue' programs through a context that fires at exactly the k-th dispatch, and the outcome is checked against the fault-free run (prefix of side effects, monotone in k, identical failure epilogue, equal snapshots, no Go panic)",
+   note="(a) trusts verif/luaref; (b) trusts only that the VM polls the context once per dispatched instruction; fault sites are enumerated completely per program, programs are sampled",
+   technique="fault injection over generated programs: exhaustive per-program site and instruction enumeration, reference-interpreter and metamorphic oracles"),
  "C09": dict(engine="E4 stateful model", level="exploration", design="DESIGN.md 4/C09, props/c09/NOTES.md",
    text="generated histories of stores, deletions, reads and traversals over keys of every type through Lua operations and the Go table API, against a Go map model with the border predicate and the exactly-once traversal predicate (also with clears and overwrites interleaved with a stepping traversal)",
    note="trusts the map model and the two predicates as written from the manual",
